@@ -179,6 +179,14 @@ def r2(R):
                             pv2, 'call', lambda p: p[:2] == ('self',
                                                              'reach_ex')):
                         return ast.dump(op.ast.args[0])
+                # `self.reachable[oid] = dh.back`: the same thing said in
+                # the one-revision table (F34)
+                if op.kind == 'setitem' and path_is(
+                        op.path, ('self', 'reachable')) and isinstance(
+                            op.stmt, ast.Assign) and isinstance(
+                                op.stmt.value, ast.Attribute) and \
+                        op.stmt.value.attr == 'back':
+                    return ast.dump(op.stmt.value)
             return None
 
         def rooted(node):
